@@ -18,10 +18,13 @@
 //                         (3) the public API: tapkee::with(...).withKernel(..).withDistance(..)
 //                             .embedUsing(indices) on the same table ("R emb").
 //                         std::srand(seed) before (3): the randomized solver draws from std::rand.
+//                         solver = randomized: also "R omega" (n x d), the Gaussian test matrix the solver
+//                         will draw (same seed, same oracle tapkee::gaussian_random, row by row).
 //   EMB  meth solver seed n d k <n*n>     only (3).
 //   TRI dense|randomized largest|smallest seed n d <n*n>
 //                         tapkee_internal::eigendecomposition(method, CPU, Largest/SmallestEigenvalues,
-//                         M, d) on a matrix whose triangles may DIFFER.  Prints "R vecs" (n x d), "R vals".
+//                         M, d) on a matrix whose triangles may DIFFER.  Prints "R vecs" (n x d), "R vals"
+//                         (randomized largest: "R omega" first).
 //   RAW n <n*n>           Eigen::SelfAdjointEigenSolver on a matrix whose triangles differ
 //                         (oracle contract: which triangle does Eigen read?). "R vecs", "R vals".
 // Numbers are decimal or hex-float on input, hex-float on output.
@@ -67,6 +70,19 @@ static bool method_of(const std::string& s, DimensionReductionMethod& m)
     else
         return false;
     return true;
+}
+
+// the Gaussian test matrix eigendecomposition_impl_randomized is about to draw (LargestEigenvalues: skip = 0, so
+// n x d, filled row by row from tapkee::gaussian_random(), which draws from std::rand): the same oracle calls in
+// the same order after the same std::srand(seed).  "R omega".  The caller re-seeds afterwards.
+static void print_omega(unsigned seed, int n, int d)
+{
+    std::srand(seed);
+    DenseMatrix O(n, d);
+    for (int i = 0; i < n; i++)
+        for (int j = 0; j < d; j++)
+            O(i, j) = tapkee::gaussian_random();
+    print_matrix("omega", O);
 }
 
 static TapkeeOutput embed_once(const DimensionReductionMethod& m, const std::string& solver, int d, int k,
@@ -190,6 +206,8 @@ int main()
                         sq(i) = sqrt(std::max<ScalarType>(sq(i), 0.0));
                     print_vector("refsqrt", sq);
                 }
+                if (solver == "randomized")
+                    print_omega(seed, n, d);
                 std::srand(seed);
                 TapkeeOutput out = embed_once(m, solver, d, kk, T, idx);
                 print_matrix("emb", out.embedding);
@@ -206,6 +224,8 @@ int main()
                     std::cout << "X " << k << " bad-input" << std::endl;
                     return;
                 }
+                if (solver == "randomized" && strat != "smallest")
+                    print_omega(seed, n, d);
                 std::srand(seed);
                 tapkee_internal::EigendecompositionResult r = tapkee_internal::eigendecomposition(
                     solver_of(solver), HomogeneousCPUStrategy,
